@@ -95,6 +95,15 @@ Theorem C02_stack : forall t others d bs',
 Proof. exact stack_acts_on_batch_dims. Qed.
 Print Assumptions C02_stack.
 
+(* torch.cat: the operands have the keys of the first one and, entry by entry, its shapes off the concatenation dim *)
+Theorem C02_cat : forall t others d bs' i,
+  wf t -> ukeys t -> is_node t -> Forall wf others ->
+  wrap_dim d (List.length (top_shape t)) = Ok i -> Forall (cong (cat_R i) t) others ->
+  t_cat (map top_shape (t :: others)) d = Ok bs' ->
+  exists t', td_cat (t :: others) d = Done t' /\ top_shape t' = bs' /\ rel (top_shape t) bs' t t' /\ wf t'.
+Proof. exact cat_acts_on_batch_dims. Qed.
+Print Assumptions C02_cat.
+
 (* masked_select by a mask of the batch shape holding cnt True entries *)
 Theorem C02_masked_select : forall t cnt,
   wf t -> is_node t -> 0 <= cnt ->
@@ -248,3 +257,8 @@ Qed.
 Example C02_ex_reject : reject_domain (OPermute [0; 0; 1]) (top_shape ex_tree) /\ torch_shape (OPermute [0; 0; 1]) (top_shape ex_tree) = Reject
   /\ reject_domain (OTranspose 3 0) (top_shape ex_tree) /\ torch_shape (OTranspose 3 0) (top_shape ex_tree) = Reject.
 Proof. repeat split; try discriminate; vm_compute; reflexivity. Qed.
+
+Example C02_ex_cat :
+  wrap_dim (-1) (List.length (top_shape ex_tree)) = Ok 2%nat /\ cong (cat_R 2) ex_tree ex_tree
+  /\ t_cat (map top_shape [ex_tree; ex_tree]) (-1) = Ok [2; 1; 6].
+Proof. split; [reflexivity|]. split; [exact ex_tree_cong_cat|vm_compute; reflexivity]. Qed.
